@@ -217,6 +217,31 @@ static int ss_expand(int argc, char **argv)
    return 0;
    }
 
+/* layout of the data-bearing items as the library computed it, in the format of the spec */
+static int ss_speclayout(int argc, char **argv)
+   {
+   DataSubset *s; int i, n, first = 1;
+   if (argc != 2 || !cur_tmpl) { fputs("none", bvp_out); return 0; }
+   s = get_ss(argv[1]);
+   if (!s) { fputs("none", bvp_out); return 0; }
+   n = bufr_datasubset_count_descriptor(s);
+   fputs("L", bvp_out);
+   for (i = 0; i < n; i++)
+      {
+      BufrDescriptor *b = bufr_datasubset_get_descriptor(s, i);
+      int f = b->descriptor / 100000, t = (int)b->encoding.type;
+      if ((b->flags & FLAG_SKIPPED) || (f != 0 && f != 2)) continue;
+      (void)first;
+      if (t == TYPE_OPERATOR || t == TYPE_UNDEFINED)
+         fprintf(bvp_out, " %d:%d", b->descriptor, t == TYPE_OPERATOR ? 2 : 0);
+      else if (t == TYPE_NUMERIC)
+         fprintf(bvp_out, " %d:4:%d:%d:%d:%d", b->descriptor, b->encoding.nbits, b->encoding.scale, b->encoding.reference, (int)b->encoding.af_nbits);
+      else
+         fprintf(bvp_out, " %d:%d:%d:%d", b->descriptor, t, b->encoding.nbits, (int)b->encoding.af_nbits);
+      }
+   return 0;
+   }
+
 static int ds_invalid(int argc, char **argv)
    {
    (void)argc; (void)argv;
@@ -228,5 +253,5 @@ struct op_entry ops_template[] = {
    { "T.load", t_load }, { "T.dump", t_dump }, { "T.use", t_use },
    { "tm.new", tm_new }, { "tm.gabarit", tm_gabarit },
    { "ss.new", ss_new }, { "ss.list", ss_list }, { "ss.seti", ss_seti }, { "ss.setfactors", ss_setfactors }, { "ss.expand", ss_expand },
-   { "ds.invalid", ds_invalid },
+   { "ss.speclayout", ss_speclayout }, { "ds.invalid", ds_invalid },
    { NULL, NULL } };
